@@ -170,6 +170,8 @@ type HSParams struct {
 	PadSeed           uint64
 	ExtraFingerprints []int64 // offered before the real one
 	FingerprintsAfter []int64 // offered after the real one
+	// RetryFirst: that many set_client_DH_params are answered with dh_gen_retry (correct hash) before the server accepts one
+	RetryFirst int
 	// Splits: the i-th reply of the exchange reaches the client in two TCP segments, cut after Splits[i] bytes (0: whole)
 	Splits []int
 }
@@ -200,6 +202,7 @@ type HSObs struct {
 	Err                          string
 	PQ                           []byte
 	ClientP, ClientQ             []byte
+	GBs                          [][]byte `json:",omitempty"` // every g_b the client sent in this exchange
 	// Got: messages of the exchange received from the client; Sent: replies completely written to the socket;
 	// LastSentMs: when the last one was (unix ms). Written by the connection's goroutine, read with atomic loads.
 	Got, Sent  int32
@@ -237,6 +240,8 @@ func (b *Barrier) Wait() {
 }
 
 type Server struct {
+	addr      string
+	prevNonce []byte // nonce of the previous key exchange with this server (fault "previous-exchange")
 	// RollingSalts > 0: that many of the next content-related messages each find their salt just retired (atomic)
 	RollingSalts int32
 	// SeqStart: where a connection's seq_no counter starts (a session that has been alive for a long time: the int32
@@ -295,13 +300,29 @@ func NewServer(name string, key *RSAKey, store *Store, hub *Hub) (*Server, error
 	if err != nil {
 		return nil, err
 	}
-	s := &Server{Name: name, ln: ln, Key: key, Store: store, seq: &hub.seq, seqMu: &hub.mu, events: &hub.Events, AutoPong: true}
+	s := &Server{Name: name, ln: ln, addr: ln.Addr().String(), Key: key, Store: store, seq: &hub.seq, seqMu: &hub.mu, events: &hub.Events, AutoPong: true}
 	go s.acceptLoop()
 	return s, nil
 }
 
-func (s *Server) Addr() string { return s.ln.Addr().String() }
+func (s *Server) Addr() string { return s.addr }
 func (s *Server) Close()       { s.ln.Close() }
+
+// Suspend stops listening (connection attempts are refused); Resume listens on the same address again.
+func (s *Server) Suspend() { s.ln.Close() }
+func (s *Server) Resume() error {
+	var err error
+	for i := 0; i < 50; i++ {
+		var ln net.Listener
+		if ln, err = net.Listen("tcp", s.addr); err == nil {
+			s.ln = ln
+			go s.acceptLoop()
+			return nil
+		}
+		time.Sleep(10 * time.Millisecond)
+	}
+	return err
+}
 
 func (s *Server) log(e Event) {
 	s.seqMu.Lock()
@@ -334,8 +355,9 @@ func (s *Server) LastConn() *Conn {
 }
 
 func (s *Server) acceptLoop() {
+	ln := s.ln
 	for {
-		c, err := s.ln.Accept()
+		c, err := ln.Accept()
 		if err != nil {
 			return
 		}
@@ -387,6 +409,10 @@ type Conn struct {
 	hs              *HSObs
 	hsp             HSParams
 	plainSent       int
+	faultOff        bool
+	lastID          int64
+	lastSeq         int32
+	lastBody        []byte
 	a               *big.Int
 	lastClientMsgID int64
 }
@@ -615,6 +641,9 @@ func (c *Conn) plain(f []byte) error {
 	ctor := br.U32()
 	c.S.log(Event{Kind: "plain", Conn: c.ID, MsgID: msgID, Ctor: fmt.Sprintf("%08x", ctor), Len: len(body)})
 	flt := c.S.Fault
+	if c.faultOff {
+		flt = nil
+	}
 	if c.hs != nil && ctor != IDReqPQ {
 		atomic.AddInt32(&c.hs.Got, 1)
 	}
@@ -639,9 +668,32 @@ func (c *Conn) plain(f []byte) error {
 			return c.sendPlain(RpcError(flt.Code, flt.Text))
 		}
 		nonce, sn := c.hs.Nonce, c.hs.ServerNonce
-		if flt.at("resPQ", "nonce") {
+		stale := false
+		if flt.at("resPQ", "nonce") && flt.Kind == "previous-exchange" {
+			// the first exchange with this server gets a flipped nonce; every later one gets, before the conformant
+			// res_pq, a res_pq that echoes the nonce of the exchange before it (a late reply from the old connection)
+			c.S.mu.Lock()
+			prev := c.S.prevNonce
+			c.S.prevNonce = append([]byte{}, c.hs.Nonce...)
+			c.S.mu.Unlock()
+			if prev == nil {
+				nonce = flipBit(nonce, flt.Bit)
+			} else {
+				stale = true
+				c.faultOff = true
+				flt = nil
+				w := &W{}
+				w.U32(IDResPQ).Raw(prev).Raw(sn).Str(pqb).VecI64([]int64{c.S.Key.Fingerprint()})
+				if err := c.sendPlain(w.B); err != nil {
+					return err
+				}
+				c.S.log(Event{Kind: "stale-respq", Conn: c.ID, Note: "res_pq echoing the previous exchange's nonce, conformant res_pq follows"})
+				atomic.AddInt32(&c.hs.Sent, -1) // not an answer to a message of this exchange
+			}
+		} else if flt.at("resPQ", "nonce") {
 			nonce = flt.corrupt(nonce, sn)
 		}
+		_ = stale
 		fps := append(append(append([]int64{}, c.hsp.ExtraFingerprints...), c.S.Key.Fingerprint()), c.hsp.FingerprintsAfter...)
 		if flt.at("resPQ", "fingerprints") {
 			real := c.S.Key.Fingerprint()
@@ -800,8 +852,18 @@ func (c *Conn) plain(f []byte) error {
 		if !bytes.Equal(in1, c.hs.Nonce) || !bytes.Equal(isn, c.hs.ServerNonce) {
 			return errors.New("client_DH_inner_data: nonce mismatch")
 		}
-		if retry != 0 {
+		if retry != 0 && len(c.hs.GBs) == 0 {
 			return fmt.Errorf("client_DH_inner_data: retry_id %d on the first attempt", retry)
+		}
+		c.hs.GBs = append(c.hs.GBs, append([]byte{}, gbBytes...))
+		if c.hsp.RetryFirst > 0 && len(c.hs.GBs) <= c.hsp.RetryFirst {
+			// a conformant server may find the key's auxiliary hash taken and ask for another exponent: dh_gen_retry
+			// with new_nonce_hash2; a client is free to give up instead
+			gbr := new(big.Int).SetBytes(gbBytes)
+			auxr := ref.SHA1(ref.LeftPad(new(big.Int).Exp(gbr, c.a, ref.DHPrime).Bytes(), 256))[:8]
+			o := &W{}
+			o.U32(IDDHGenRetry).Raw(c.hs.Nonce).Raw(c.hs.ServerNonce).Raw(ref.SHA1(c.hs.NewNonce, []byte{2}, auxr)[4:20])
+			return c.sendPlain(o.B)
 		}
 		gb := new(big.Int).SetBytes(gbBytes)
 		one := big.NewInt(1)
@@ -1011,6 +1073,29 @@ func (c *Conn) Send(body []byte, contentRelated bool) int64 {
 		ctor = binary.LittleEndian.Uint32(body)
 	}
 	c.S.log(Event{Kind: "sent", Conn: c.ID, MsgID: id, SeqNo: seq, Ctor: fmt.Sprintf("%08x", ctor), Len: len(body)})
+	if contentRelated {
+		c.wmu.Lock()
+		c.lastID, c.lastSeq, c.lastBody = id, seq, append([]byte{}, body...)
+		c.wmu.Unlock()
+	}
+	c.WriteFrame(c.seal(id, seq, body))
+	return id
+}
+
+// Redeliver sends the last content-related message of this connection once more, under the same msg_id and seq_no: what
+// a server does when the acknowledgement did not reach it. Returns the id (0: nothing to repeat).
+func (c *Conn) Redeliver() int64 {
+	c.wmu.Lock()
+	id, seq, body := c.lastID, c.lastSeq, c.lastBody
+	c.wmu.Unlock()
+	if id == 0 || c.key == nil || c.Closed() {
+		return 0
+	}
+	ctor := uint32(0)
+	if len(body) >= 4 {
+		ctor = binary.LittleEndian.Uint32(body)
+	}
+	c.S.log(Event{Kind: "sent", Conn: c.ID, MsgID: id, SeqNo: seq, Ctor: fmt.Sprintf("%08x", ctor), Len: len(body), Note: "redelivered"})
 	c.WriteFrame(c.seal(id, seq, body))
 	return id
 }
